@@ -8,6 +8,39 @@ OUTSIDE = ["more than 5 atomic jobs", "nesting depth > 3", "re-running the same 
 ASSUMPTIONS = []
 
 
+def edit_before_run(api, run):
+    """ordinary use before the run: the graph is inspected (which computes the cached reverse links), then edited
+    through the public API, then run"""
+    top = run.top
+    list(top.obj.exit_jobs())
+    list(top.obj.successors(*[c.obj for c in top.children[:1]]))
+    kids = top.children
+    kind = api.choice("edit", 3)
+    if kind == 0:
+        return
+    if kind == 1:           # drop one requirement edge
+        edges = [(a, b) for b in kids for a in b.reqs]
+        if not edges:
+            api.assume(False)
+        a, b = edges[api.choice("which_edge", len(edges))]
+        b.obj.requires(a.obj, remove=True)
+        b.reqs.remove(a)
+    else:                   # take one job out, re-linking around it
+        k = api.choice("which_job", len(kids))
+        victim = kids[k]
+        top.obj.bypass_and_remove(victim.obj)
+        for m in kids:
+            if victim in m.reqs:
+                m.reqs.remove(victim)
+                for r in victim.reqs:
+                    if r not in m.reqs:
+                        m.reqs.append(r)
+        kids.remove(victim)
+        del run.nodes[victim.name]
+        run.removed = getattr(run, "removed", []) + [victim]
+    api.note("c02_edits")
+
+
 def harnesses(tier):
     o = [O.c02_exactly_once]
     if tier == "quick":
@@ -21,6 +54,15 @@ def harnesses(tier):
             scenario_harness("flat-outcomes-critical", Profile(
                 templates=("F3",), raises="free", crit_job="free", edges="none", perm="two", top="pure",
                 task_hash="free"), o, required_notes=("c02_success_runs",)),
+            scenario_harness("fanin-window-yields", Profile(
+                templates=("F3",), edges="fanin", raises="free", crit_job=False, window="always", post=2,
+                perm="id", top="pure"), o, required_notes=("c02_success_runs",)),
+            scenario_harness("fanin5-window2-lagging-requirement", Profile(
+                templates=("F5",), edges="fanin2", raises="free", crit_job=False, window=2, post=4,
+                yield_jobs=("j1",), perm="id", top="pure"), o, required_notes=("c02_success_runs",)),
+            scenario_harness("edited-before-run", Profile(
+                templates=("F3",), edges="free", window="free", crit_job=False, perm="id", top="pure"), o,
+                pre=edit_before_run, required_notes=("c02_success_runs", "c02_edits")),
             scenario_harness("nested-critical-timeout", Profile(
                 templates=("N12",), raises="free", crit_job="free", timeout="free", timeout_scope="nested",
                 perm="id", top="sched"), o, required_notes=("c02_success_runs",)),
